@@ -693,6 +693,12 @@ func TestC12(t *testing.T) {
 			}
 		}
 	}
+	// output:format may not change once extend functions are known (they may take the converter
+	// interface, which function output cannot pass on): the order of the two lines is validated
+	inv = append(inv,
+		invalidCase{Conv: "PFormatOrder", Level: "conv", Line: "output:format function", Level2: "conv", Line2: "extend ConvLast"},
+		invalidCase{Conv: "PFormatOrder", Level: "conv", Line: "output:format function", Level2: "cli", Line2: "extend ConvLast"},
+	)
 	for _, l1 := range []string{"cli", "conv", "method"} {
 		for _, l2 := range []string{"cli", "conv", "method"} {
 			rank := map[string]int{"cli": 0, "conv": 1, "method": 2}
